@@ -692,7 +692,7 @@ class SubjectRun:
 def describe(subject):
     label = subject.label
     if label["subject"] == "shipped":
-        return label["name"] + ".s"
+        return label["name"]
     return "%s %s class __init__(%s)" % (
         label["kind"], label["role"],
         init_source(subject.params).split("(", 1)[1].split("):")[0])
